@@ -6,7 +6,7 @@
     PARTIAL: the round-trip theorem parse(print c) = abs c is proved here for the stream-selector
     sub-grammar with an unbounded number of matchers; for the rest of the grammar it is established by the
     correspondence against generator-computed expectations, not by a theorem (see DESIGN.md). *)
-From LogQLV Require Import Base.Bytes Base.FloatX Model.Tables Model.Syntax Model.Parser Proofs.ParserP Proofs.PredP Proofs.PipelineP Proofs.LogRangeP Proofs.QueryP Proofs.UnwrapP Proofs.VecParamP Proofs.QuantileP Proofs.BinRangeP Model.Lexer Proofs.LexerP Proofs.LexerTightP Proofs.LexParseP.
+From LogQLV Require Import Base.Bytes Base.FloatX Model.Tables Model.Syntax Model.Parser Proofs.ParserP Proofs.PredP Proofs.PipelineP Proofs.LogRangeP Proofs.QueryP Proofs.UnwrapP Proofs.VecParamP Proofs.QuantileP Proofs.BinRangeP Proofs.BinModP Model.Lexer Proofs.LexerP Proofs.LexerTightP Proofs.LexParseP Proofs.BinTextP.
 
 (** every selector {l1 op1 "v1", ..., ln opn "vn"} with any number of matchers, all four operators, any value bytes (regex
     values that compile) and any label names -- whether the lexer classifies a name as Ident or as a keyword (by, on, json,
@@ -205,6 +205,33 @@ Example bin_range_example :
   parse_tokens (print_bin anch rn (fun _ => TIdent) OpDiv a b) = Parsed (EBin (operand_expr a) OpDiv empty_mod (operand_expr b)) /\
   parse_tokens (print_bin anch rn (fun _ => TIdent) OpUnless a b) = Parsed (EBin (operand_expr a) OpUnless empty_mod (operand_expr b)).
 Proof. split; vm_compute; reflexivity. Qed.
+
+(** ... and with a modifier between the operator and the right operand:  a > bool b,  a / on (x, y) b,  a * ignoring (x) b,
+    a / on (x) group_left (y, z) b,  a + ignoring (x) group_right b  and their combinations denote  EBin left op modifier right,
+    the modifier node holding exactly what was written (join kind, its labels, group side, included labels, bool) *)
+Theorem bin_mod_parse :
+  forall (anch : bytes -> bool) (re_names : bytes -> option (list bytes)) (cls : bytes -> ttype) (op : binop) (m : msrc) (a b : operand),
+  metric_op op = true ->
+  wf_operand anch re_names cls a (plain (bin_tok op) (spelling (bin_tok op)) :: print_mod m ++ print_operand anch re_names cls b) -> wf_operand anch re_names cls b [] ->
+  parse_tokens (print_bin_mod anch re_names cls op m a b) = Parsed (EBin (operand_expr a) op (mod_of m) (operand_expr b)).
+Proof. exact bin_mod_parse_lemma. Qed.
+Print Assumptions bin_mod_parse.
+
+Example bin_mod_example :
+  let anch := fun _ : bytes => true in
+  let rn := fun _ : bytes => Some (@nil bytes) in
+  let sel := [ {| m_label := ["a"%byte]; m_op := OpEq; m_value := ["x"%byte] |} ] in
+  let m5 := ["5"%byte; "m"%byte] in
+  let a := {| a_op := RangeOpRate; a_sel := sel; a_sts := [SLine OpEq ["e"%byte] false]; a_rtxt := m5; a_rns := 300000000000; a_off := None |} in
+  let b := {| a_op := RangeOpCount; a_sel := sel; a_sts := []; a_rtxt := m5; a_rns := 300000000000; a_off := None |} in
+  let m1 := {| ms_bool := true; ms_join := None |} in
+  let m2 := {| ms_bool := false; ms_join := Some (JOn, [["x"%byte]; ["y"%byte]], Some (GLeft, [["z"%byte]])) |} in
+  let m3 := {| ms_bool := true; ms_join := Some (JIgnoring, [], Some (GRight, [])) |} in
+  parse_tokens (print_bin_mod anch rn (fun _ => TIdent) OpGt m1 a b) = Parsed (EBin (operand_expr a) OpGt (mod_of m1) (operand_expr b)) /\
+  parse_tokens (print_bin_mod anch rn (fun _ => TIdent) OpDiv m2 a b) = Parsed (EBin (operand_expr a) OpDiv (mod_of m2) (operand_expr b)) /\
+  parse_tokens (print_bin_mod anch rn (fun _ => TIdent) OpMul m3 a b) = Parsed (EBin (operand_expr a) OpMul (mod_of m3) (operand_expr b)) /\
+  bm_include (mod_of m2) = [["z"%byte]] /\ bm_bool (mod_of m3) = true /\ length (print_mod m2) = 10%nat.
+Proof. repeat split; vm_compute; reflexivity. Qed.
 
 (** vector aggregations with the operand directly in parentheses, with or without a leading integer parameter:
     topk ( 3 , rate ( .. ) ), bottomk ( 1 , .. ), sort ( .. ), sort_desc ( .. ), sum ( .. )  -- [k] is the parameter token's text and
@@ -413,6 +440,46 @@ Theorem unwrap_agg_text_parse :
     parse_tokens (map (tok_of anch re_names dur) toks) = Parsed (ERange o (unwrap_lr sel sts cv lb rns off) None g).
 Proof. exact unwrap_agg_text_lemma. Qed.
 Print Assumptions unwrap_agg_text_parse.
+
+(** ... and of ONE binary operation between two range aggregations, with or without a modifier:
+    rate({..}[5m]) / on (x) group_left (y) rate({..}[5m]),  count_over_time(..) > bool count_over_time(..),  a unless b
+    ([text_mod]: the labels a modifier lists are names that are not keywords; the empty modifier is  ms_bool = false, ms_join = None) *)
+Theorem bin_op_text_parse :
+  forall (anch : bytes -> bool) (re_names : bytes -> option (list bytes)) (dur : bytes -> option Z)
+         (op : binop) (m : msrc) (a b : operand) (l : list (ltok * bytes)),
+  map fst l = map ltok_of (print_bin_mod anch re_names kw_cls op m a b) ->
+  seps_ok l ->
+  metric_op op = true -> text_mod m ->
+  text_operand anch re_names dur a (plain (bin_tok op) (spelling (bin_tok op)) :: print_mod m ++ print_operand anch re_names kw_cls b) ->
+  text_operand anch re_names dur b [] ->
+  exists toks, lex (layout l) = LexOk toks /\
+    parse_tokens (map (tok_of anch re_names dur) toks) = Parsed (EBin (operand_expr a) op (mod_of m) (operand_expr b)).
+Proof. exact bin_mod_text_lemma. Qed.
+Print Assumptions bin_op_text_parse.
+
+(** non-vacuity:  rate ( { app = "x" } [ 5m ] ) / on ( x ) group_left ( y ) count_over_time ( { app = "x" } [ 5m ] )  written with one
+    space after every token *)
+Example bin_op_text_example :
+  let anch := fun _ : bytes => true in
+  let rn := fun _ : bytes => Some (@nil bytes) in
+  let m5 := ["5"%byte; "m"%byte] in
+  let dur := fun t : bytes => if bytes_eqb t m5 then Some 300000000000 else None in
+  let sel := [ {| m_label := ["a"%byte; "p"%byte; "p"%byte]; m_op := OpEq; m_value := ["x"%byte] |} ] in
+  let a := {| a_op := RangeOpRate; a_sel := sel; a_sts := []; a_rtxt := m5; a_rns := 300000000000; a_off := None |} in
+  let b := {| a_op := RangeOpCount; a_sel := sel; a_sts := []; a_rtxt := m5; a_rns := 300000000000; a_off := None |} in
+  let m := {| ms_bool := false; ms_join := Some (JOn, [["x"%byte]], Some (GLeft, [["y"%byte]])) |} in
+  let toks := print_bin_mod anch rn kw_cls OpDiv m a b in
+  let l := map (fun t => (ltok_of t, [" "%byte])) toks in
+  map fst l = map ltok_of toks /\ seps_ok l /\ text_mod m /\
+  firstn 12 (layout l) = [ "r"; "a"; "t"; "e"; " "; "("; " "; "{"; " "; "a"; "p"; "p" ]%byte /\
+  match lex (layout l) with
+  | LexOk lexed => parse_tokens (map (tok_of anch rn dur) lexed) = Parsed (EBin (operand_expr a) OpDiv (mod_of m) (operand_expr b))
+  | _ => False
+  end.
+Proof.
+  cbv zeta. split; [vm_compute; reflexivity|]. split; [vm_compute; repeat constructor; discriminate|].
+  split; [split; repeat constructor; vm_compute; reflexivity|]. split; vm_compute; reflexivity.
+Qed.
 
 (** non-vacuity, written without white space:  max_over_time({app="x"}|unwrap bytes(n)[5m])by(a) *)
 Example unwrap_agg_text_example :
